@@ -84,7 +84,9 @@ structure Cfg where
   ptrMinTtl : Nat
   cleanup : Int
   /-- a browser re-queries a held PTR at these per-mille of its TTL, each no earlier than `refreshEarly` before (a refreshed
-  record keeps a schedule that is within one `browserTime` of its new 75 % point: "avoid churn") and within `refreshWin` after -/
+  record keeps a schedule that is within one `browserTime` of its new 75 % point: "avoid churn") and within `refreshWin` after
+  (the kept schedule may equally lie one `browserTime` *after* the new 75 % point, and the 75 % pass and the 85 % pass may each
+  be one `browserTime` late: 30 s — the bound `Bridge.K3b_windows_running` proves from C10's model) -/
   refresh1 : Int
   refresh2 : Int
   refreshEarly : Int
@@ -95,7 +97,7 @@ structure Cfg where
 @[reducible] def Cfg.paper : Cfg :=
   { regDelay := 350, ann := [350, 575, 800], updAnn := [0, 225, 450], bye := [0, 125, 250], maxDelay := 100,
     qLo := 20, qHi := 120, qOff := [0, 1000, 5000, 14000], dupQ := 999, respBefore := 1000, respAfter := 1200,
-    ptrMinTtl := 1125, cleanup := 10000, refresh1 := 750, refresh2 := 850, refreshEarly := 10000, refreshWin := 25000 }
+    ptrMinTtl := 1125, cleanup := 10000, refresh1 := 750, refresh2 := 850, refreshEarly := 10000, refreshWin := 30000 }
 
 def startupOffsets : Nat → Int → Int → List Int
   | 0, _, _ => []
@@ -115,8 +117,8 @@ def Cfg.gen : Cfg :=
     refresh1 := ((Gen.expireRefreshTimePercent * 10 : Nat) : Int),
     refresh2 := ((Gen.expireRefreshTimePercent * 10 + Gen.rescueRecordRetryTtlPercentagePerMille : Nat) : Int),
     refreshEarly := (Gen.browserTime : Nat),
-    -- one scheduler pass at most `browserTime` late, or (a browser that starts late) the start-up phase first
-    refreshWin := ((Gen.browserTime + 15000 : Nat) : Int) }
+    -- a kept schedule up to `browserTime` after the new 75 % point, and each of the two passes at most `browserTime` late
+    refreshWin := ((3 * Gen.browserTime : Nat) : Int) }
 
 /-! ### typed views of a trace -/
 
@@ -433,12 +435,14 @@ def noPtrBetween (tr : Trace) (h : Nat) (s : Svc) (t1 t2 : Int) : Bool :=
   (dlvs tr).all fun e => !(e.h == h && (ptrOf s e.items).isSome && t1 < e.t && e.t ≤ t2)
 
 /-- the two refresh windows for a PTR processed at `t` with lifetime `e` seconds by a host whose browser started at `tb`.
-If the browser existed when the record reached 75 % of its life: around `t + 75 % e` and `t + 85 % e` (from `refreshEarly + dupQ`
-before — a refreshed record keeps a schedule within one `browserTime` of its new 75 % point, and a heard question suppresses —
-to `refreshWin` after).  If the browser started later (the record was already older): its third and fourth start-up
-questions (K3's windows) — by then the record is stale and is not listed. -/
+If the browser had finished its start-up phase when the earliest possible schedule of the record's 75 % query came
+(`tb + qHi + 14 s + refreshEarly ≤ t + 75 % e`): around `t + 75 % e` and `t + 85 % e` (from `refreshEarly + dupQ` before — a
+refreshed record keeps a schedule within one `browserTime` of its new 75 % point, and a heard question suppresses — to `refreshWin`
+after).  Otherwise — the browser started later, or so shortly before that the 75 % point falls into its start-up phase, during
+which the scheduler serves no refresh — its third and fourth start-up questions (K3's windows): by then the record is past half its
+life, stale, and is not listed. -/
 def refreshWindow (cfg : Cfg) (t e tb : Int) (second : Bool) : Int × Int :=
-  if tb ≤ t + cfg.refresh1 * e then
+  if tb + cfg.qHi + cfg.qOff.getD 3 0 + cfg.refreshEarly ≤ t + cfg.refresh1 * e then
     let due := t + (if second then cfg.refresh2 else cfg.refresh1) * e
     (due - cfg.refreshEarly - cfg.dupQ, due + cfg.refreshWin)
   else
